@@ -775,3 +775,20 @@ func (x *Ctx) returnedFunc(p *paths.Path, t *paths.Term) *returnedFunc {
 		return s
 	}}
 }
+
+// decodesWith tells whether a token-valued term is the result of the typed decoder of package pk applied to src:
+// a call of pk's exported decoder named fn (FromIPLD, FromDagCbor, ...), or - when that decoder has become a thin
+// layer over helpers and is seen through - a term that contains the envelope decoder of pk's payload model
+// applied to src.
+func decodesWith(t *paths.Term, pk, fn, src string) bool {
+	found := false
+	t.Walk(func(s *paths.Term) {
+		if s.Op != "call" || len(s.Args) == 0 || s.Args[0] == nil || s.Args[0].String() != src {
+			return
+		}
+		if s.Name == pk+"."+fn || s.Name == "token/internal/envelope."+fn+"[*"+pk+".tokenPayloadModel]" {
+			found = true
+		}
+	})
+	return found
+}
